@@ -50,3 +50,30 @@ Definition f6f_got : str := [98;39;97;98;99;39]%N.       (* b'abc' *)
 Theorem compat_refuted_F6f :
   std_ellipsis_match f6f_want f6f_got = true /\ check_output default_flags f6f_got f6f_want = false.
 Proof. vm_compute. split; reflexivity. Qed.
+
+From XD Require Import Model.StdOutput.
+(* findings F6g, F6h, F6i (each is a hypothesis of StdOutputProofs.std_output_accepted that cannot be dropped):
+   the standard OutputChecker accepts, check_output in xdoctest's default state does not *)
+Definition f6g_want : str := BLANKLINE.                                  (* the want line <BLANKLINE> ... *)
+Definition f6g_got : str := BLANKLINE ++ [NL].                           (* ... for an output that IS the text <BLANKLINE> *)
+Theorem compat_refuted_F6g :
+  std_check_output false false (f6g_want ++ [NL]) f6g_got = true /\ check_output default_flags f6g_got f6g_want = false.
+Proof. vm_compute. split; reflexivity. Qed.
+
+Definition f6h_want : str := [97;46;46;46]%N.                            (* a... *)
+Definition f6h_got : str := [97;98;13;99;10]%N.                          (* "ab\rc\n": a carriage return inside the line *)
+Theorem compat_refuted_F6h :
+  std_check_output true false (f6h_want ++ [NL]) f6h_got = true /\ check_output default_flags f6h_got f6h_want = false.
+Proof. vm_compute. split; reflexivity. Qed.
+
+Definition f6i_want : str := [46;27;91;48;109;46;46;46]%N.               (* ".<ESC>[0m..." *)
+Definition f6i_got : str := [46;27;91;48;109;97;10]%N.                   (* ".<ESC>[0ma\n" *)
+Theorem compat_refuted_F6i :
+  std_check_output true false (f6i_want ++ [NL]) f6i_got = true /\ check_output default_flags f6i_got f6i_want = false.
+Proof. vm_compute. split; reflexivity. Qed.
+
+Definition f6d_want : str := [49]%N.                                     (* 1 *)
+Definition f6d_got : str := TRUE_NL.                                     (* "True\n" *)
+Theorem compat_refuted_F6d :
+  std_check_output false false (f6d_want ++ [NL]) f6d_got = true /\ check_output default_flags f6d_got f6d_want = false.
+Proof. vm_compute. split; reflexivity. Qed.
